@@ -60,6 +60,11 @@ class SymEval:
         self.params = params
         self.env: Dict[str, Any] = dict(env or {})
         self.np_names = {"np", "numpy", "fallback_np"}
+        # locals bound to a numpy namespace (`xp = connector.np`) denote numpy whatever they are called
+        for n_ in ast.walk(fn.node):
+            if isinstance(n_, ast.Assign) and len(n_.targets) == 1 and isinstance(n_.targets[0], ast.Name) \
+                    and isinstance(n_.value, ast.Attribute) and n_.value.attr in ("np", "fallback_np", "_np", "forward_pass_np"):
+                self.np_names.add(n_.targets[0].id)
         self.call_hook = call_hook
         self.result: Any = None
 
